@@ -256,6 +256,26 @@ theorem setTmp_core {h1 : Heap} {vars e1 g1 c} (hd1 : Held h1 vars e1 g1 c) (p :
       · rw [s5.next, s4.next, hn3]; omega
       · have := s5.live; have := s4.live; rw [hl3] at *; omega
 
+theorem core_result {f : Nat} {h1 : Heap} {c : Cell} {p : Pay} {h' : Heap} {c' : Cell}
+    (r : (match setBoxedCell f h1 c p with
+       | some (s2, c') => (releaseAll f s2 p.cells).map (fun s3 => (s3, c'))
+       | none => none) = some (h', c')) :
+    ∃ s2, setBoxedCell f h1 c p = some (s2, c') ∧ releaseAll f s2 p.cells = some h' := by
+  cases hsb : setBoxedCell f h1 c p with
+  | none => rw [hsb] at r; cases r
+  | some q =>
+    obtain ⟨s2, c2⟩ := q
+    rw [hsb] at r
+    simp only at r
+    cases hra : releaseAll f s2 p.cells with
+    | none => rw [hra] at r; cases r
+    | some h6 =>
+      rw [hra] at r
+      simp only [Option.map, Option.some.injEq, Prod.mk.injEq] at r
+      obtain ⟨e1, e2⟩ := r
+      subst e1 e2
+      exact ⟨s2, rfl, hra⟩
+
 /-- typed assignment of a temporary List / Array and the destruction of the temporary -/
 theorem leaf_setSeq {h vars e g c} (rd : Nat → Cell) (hd : Held h vars e g c) (isArr : Bool) (l : List Src)
     (hs : ∀ s ∈ l, SrcOk rd vars s) (f : Nat) (hf : liveCount h + l.length + 1 < f) :
@@ -450,5 +470,41 @@ theorem leaf_setMap (ds : DblSem) {h vars e g c} (rd : Nat → Cell) (hd : Held 
   · have := st.next_le; omega
   · have := st.next_ge; omega
   · have := st.live; omega
+
+/-! ### the temporary argument in general -/
+
+def valSize : ValS → Nat
+  | .list l => l.length
+  | .array l => l.length
+  | .map m => m.length
+  | .lit _ => 0
+
+def ValSOk (rd vars : Nat → Cell) : ValS → Prop
+  | .list l => ∀ s ∈ l, SrcOk rd vars s
+  | .array l => ∀ s ∈ l, SrcOk rd vars s
+  | .map m => ∀ q ∈ m, SrcOk rd vars q.2
+  | .lit _ => False
+
+/-- building the temporary container of a typed constructor / assignment argument -/
+theorem dinv_tmpPay (rd : Nat → Cell) {vars : Nat → Cell} (f : Nat) (a : ValS) (ha : ValSOk rd vars a) (h : Heap)
+    (e : Nat → Nat) (g : Nat → Val) (i : DInv h vars e g) (hf : liveCount h + valSize a < f) :
+    ∃ h1 p g1, tmpPay f rd h a = some (h1, p) ∧ DInv h1 vars (fun x => e x + cntCells p.cells x) g1 ∧
+      (∀ d ∈ p.cells, ∀ z, d = .inl z → z.isBoxed = false) ∧
+      absPay g1 p = a.eval (fun w => absCell g (vars w)) ∧ (∀ x, x < h.next → g1 x = g x) ∧
+      h.next ≤ h1.next ∧ h1.next ≤ h.next + valSize a ∧ liveCount h1 ≤ liveCount h + valSize a := by
+  cases a with
+  | lit x => exact absurd ha (by simp [ValSOk])
+  | list l =>
+    obtain ⟨g1, cl⟩ := dinv_srcCopies rd l h e g i ha
+    exact ⟨_, _, g1, rfl, cl.inv, cl.ok, by simp only [absPay, cl.val, ValS.eval]; rfl, cl.frame, cl.next_le, cl.next_ge, cl.live⟩
+  | array l =>
+    obtain ⟨g1, cl⟩ := dinv_srcCopies rd l h e g i ha
+    exact ⟨_, _, g1, rfl, cl.inv, cl.ok, by simp only [absPay, cl.val, ValS.eval]; rfl, cl.frame, cl.next_le, cl.next_ge, cl.live⟩
+  | map m =>
+    obtain ⟨h1, tmp, g1, rt, i1, hv, hok, hfr, hn1, hn2, hl⟩ := dinv_tmpMap rd f m h e g []
+      (i.congr (by intro x; simp [cntCells_nil])) (by intro d hdm; simp at hdm) ha hf
+    refine ⟨h1, .map tmp, g1, by simp only [tmpPay, rt, Option.map], i1, hok, ?_, hfr, hn1, hn2, hl⟩
+    simp only [absPay, hv, ValS.eval, mapOfPairs, List.map_nil]
+    rfl
 
 end Nstd.Variant.Deep
